@@ -578,6 +578,9 @@ def _stale_reads(p, f, cls, fitted, seen, depth):
     return out
 
 
+# rules of sibling properties over code paths this property's statement also quantifies over (DESIGN.md section 3, shared rules)
+ALSO = ['C06.R2']
+
 RULES = [rule_r1, rule_r2_r3, rule_r4, rule_r5, rule_r6]
 
 WITNESSES = [
